@@ -46,6 +46,8 @@ ICU_DIRS = ["/root/miniconda/lib", "/usr/lib/x86_64-linux-gnu", "/usr/local/lib"
 
 
 def find_icu_dir() -> str | None:
+    if os.environ.get("PYODA_VERIF_NO_ICU") == "1":  # test hook: exercise the stub fallback
+        return None
     for d in ICU_DIRS:
         try:
             if any(n.startswith("libicui18n.so.73") for n in os.listdir(d)):
